@@ -370,6 +370,13 @@ func emitHist(emit func(string), os bool, cs []gcontract, plans []gplan) {
 	emit(histLine(os, rt, cs, plans))
 }
 
+// emitTick emits an interval-polling history (PollManually=false, PollInterval=<piMs> ms before clamping).
+// Every timer-driven poll costs the clamped interval (at least 1 s) of wall time: keep these few.
+func emitTick(emit func(string), cs []gcontract, plans []gplan, piMs int) {
+	line := histLine(false, 10000, cs, plans)
+	emit(strings.Replace(line, " rt10000 ", fmt.Sprintf(" rt10000,pi%d ", piMs), 1))
+}
+
 func hexList(names []string) string {
 	if len(names) == 0 {
 		return "-"
@@ -487,6 +494,49 @@ func (Area) Gen(r *rand.Rand, tier string, emit func(string)) {
 		emitHist(emit, true, cs, []gplan{sp(0, 3), sp(1, 3), sp(2, 3), sp(3, 3), sp(0, -1)})
 	}
 
+	// ---- options clamping ----------------------------------------------------------------------
+	for _, pi := range []int64{0, 1, -1, 999999999, 1000000000, 1000000001, 300000000000, 1 << 62, -(1 << 62)} {
+		emit(fmt.Sprintf("opts %d 0 0 - 0 0", pi))
+	}
+	for _, rt := range []int64{1, -1, 999999, 1000000, 1000001, 10000000000, 1 << 62} {
+		emit(fmt.Sprintf("opts 0 %d 0 - 1 0", rt))
+	}
+	for _, rl := range []int64{1, -1, -100, 99, 100, 101, 1 << 40} {
+		emit(fmt.Sprintf("opts 0 0 %d - 1 1", rl))
+	}
+	emit("opts 5000000000 20000000 3 " + hexList([]string{"internal.", "grpc."}) + " 1 0")
+	emit("opts 0 0 0 " + hexList([]string{"a", "b", "c"}) + " 0 1")
+	// ---- aggregate watcher, second Close, independent resolvers -------------------------------------
+	emit("agg 2 ua,eb,uc,c")
+	emit("agg 1 ua,c")
+	emit("agg 0 ua,eb")
+	emit("agg 3 -")
+	emit("agg 4 c,ua,ex,ex,ub")
+	emit("close2 seq")
+	emit("close2 conc")
+	emit("indep")
+	// ---- interval polling (each timer poll takes 1 s) -----------------------------------------------
+	{
+		b := baseContract(0)
+		cs := []gcontract{b, variant(r, b, 0), variant(r, b, 1)}
+		// the timer alone drives the polls: first delivers, unchanged is silent, the change is delivered
+		emitTick(emit, cs, []gplan{sp(0, -1), sp(1, -1), sp(2, -1)}, 1000)
+		// an interval below the floor is raised to 1 s; ResolveNow still wakes the poller at once
+		emitTick(emit, cs, []gplan{sp(0, 3), sp(2, -1), sp(0, -1)}, 1)
+		if tier == "thorough" {
+			// ResolveNow during a poll and the timer, a failing poll retried by the timer, Close while the timer runs
+			fail := sp(0, -1)
+			fail.att = [2]string{"A0@o", "A0@o"}
+			emitTick(emit, cs, []gplan{sp(0, 1), fail, sp(0, -1)}, 500)
+			cl := sp(2, -1)
+			cl.closeAt = 'D'
+			emitTick(emit, cs, []gplan{sp(0, -1), cl, sp(0, -1)}, 1000)
+			un := sp(0, -1)
+			un.att = [2]string{"U0@o", ok(0)}
+			emitTick(emit, cs, []gplan{un, un, sp(2, 2), sp(0, -1)}, 1000)
+		}
+	}
+
 	// ---- seeded random ---------------------------------------------------------------------
 	nHist, nHash := 150, 3000
 	if tier == "thorough" {
@@ -494,6 +544,9 @@ func (Area) Gen(r *rand.Rand, tier string, emit func(string)) {
 	}
 	for i := 0; i < nHash; i++ {
 		genHash(r, emit)
+	}
+	for i := 0; i < nHash/15; i++ {
+		genOptsAgg(r, emit)
 	}
 	for i := 0; i < nHist; i++ {
 		genHist(r, emit)
@@ -614,6 +667,51 @@ func genHash(r *rand.Rand, emit func(string)) {
 	}
 	count(fmt.Sprintf("hfile:kind%d", kind))
 	emit("hfile " + hexFiles(names, bs) + " " + hexFiles(names2, bs2))
+}
+
+// genOptsAgg emits one random options case or aggregate-watcher case.
+func genOptsAgg(r *rand.Rand, emit func(string)) {
+	if r.Intn(2) == 0 {
+		pick := func(unit int64) int64 {
+			switch r.Intn(6) {
+			case 0:
+				return 0
+			case 1:
+				return -r.Int63n(3 * unit)
+			case 2:
+				return unit - 1 + r.Int63n(3) // around the floor
+			case 3:
+				return r.Int63n(unit) // below the floor
+			default:
+				return r.Int63n(1000 * unit)
+			}
+		}
+		var pf []string
+		for i := r.Intn(3); i > 0; i-- {
+			pf = append(pf, randName(r))
+		}
+		count("opts")
+		emit(fmt.Sprintf("opts %d %d %d %s %d %d", pick(1000000000), pick(1000000), pick(50)-10, hexList(pf), r.Intn(2), r.Intn(2)))
+		return
+	}
+	n := r.Intn(5)
+	var evs []string
+	for i := r.Intn(7); i > 0; i-- {
+		switch r.Intn(5) {
+		case 0:
+			evs = append(evs, "c")
+		case 1, 2:
+			evs = append(evs, fmt.Sprintf("e%d", r.Intn(9)))
+		default:
+			evs = append(evs, fmt.Sprintf("u%d", r.Intn(9)))
+		}
+	}
+	l := "-"
+	if len(evs) > 0 {
+		l = strings.Join(evs, ",")
+	}
+	count("agg")
+	emit(fmt.Sprintf("agg %d %s", n, l))
 }
 
 // genHist emits one random poll history.
